@@ -212,7 +212,26 @@ def run_kani(repo):
 
 
 # ---- bounded Kani twin of apply/undo (thorough tier of C03 / C04) ---------------------------
-def run_kani_moves(repo):
+MOVE_HARNESSES = ['std_apply_undo_board_a', 'promo_apply_undo_board_p', 'ep_apply_undo', 'castle_apply_undo_board_c']
+FALLBACK_PROPS = ('C03', 'C04', 'C12', 'C16')
+
+
+def fallback_bounded(pid):
+    """Called when the deductive check is UNDECIDED (e.g. the change introduced an un-contracted helper):
+    the bounded Kani twins only use the crate's PUBLIC API, so they still apply.  A counterexample is a
+    violation (with CBMC's failed checks attached); a pass leaves the verdict undecided."""
+    if pid not in FALLBACK_PROPS:
+        return None
+    k = run_kani_moves(dr.REPO, MOVE_HARNESSES)
+    viol = []
+    if k['result'] == 'FAILED':
+        viol.append(_viol(pid, 'kani-bounded', 'apply+undo (public API)', 'kani-assertion', ','.join(k['failed_harnesses']) or 'moves',
+                          k['tail'], {'has_input': bool(k.get('playback')), 'checker_cmd': k['cmd'], 'failed_checks': k['failed_checks'],
+                                      'concrete_playback': k.get('playback'), 'bounded': k['bound']}))
+    return {'kani': k, 'violations': viol}
+
+
+def run_kani_moves(repo, harnesses=None):
     """BOUNDED stand-in, never counted as proved: StandardChessMove::apply + undo on ONE fixed board
     (kani/moves.rs: 13 men, both kings/rooks on home squares) with a fully SYMBOLIC (from, to) pair,
     compared with an executable transcription of the rules' successor.  Its value is a concrete
@@ -225,20 +244,36 @@ def run_kani_moves(repo):
         with open(os.path.join(dst, 'src', 'lib.rs'), 'a') as f:
             f.write('\n#[cfg(kani)] mod verif_kani_moves;\n')
         env = dict(os.environ, CARGO_NET_OFFLINE='true')
-        cmd = ['cargo', 'kani', '--harness', 'std_apply_undo_board_a', '--output-format', 'terse']
+        harnesses = harnesses or ['std_apply_undo_board_a']
+        cmd = ['cargo', 'kani']
+        for h in harnesses:
+            cmd += ['--harness', h]
+        cmd += ['-j', '4', '--output-format', 'terse']
         t0 = time.time()
-        p = subprocess.run(cmd, cwd=dst, env=env, stdout=subprocess.PIPE, stderr=subprocess.STDOUT, text=True, timeout=3000)
+        p = subprocess.run(cmd, cwd=dst, env=env, stdout=subprocess.PIPE, stderr=subprocess.STDOUT, text=True, timeout=3600)
         out = p.stdout
-        if 'VERIFICATION:- SUCCESSFUL' in out:
+        m = re.search(r'Complete - (\d+) successfully verified harnesses, (\d+) failures, (\d+) total', out)
+        failed_h = [x.split('::')[-1] for x in re.findall(r'Verification failed for - (\S+)', out)]
+        if m and int(m.group(2)) == 0 and int(m.group(1)) == len(harnesses):
             res = 'SUCCESSFUL'
-        elif 'VERIFICATION:- FAILED' in out:
+        elif failed_h or (m and int(m.group(2)) > 0) or 'VERIFICATION:- FAILED' in out:
             res = 'FAILED'
         else:
             res = 'UNKNOWN'
         failed = re.findall(r'Failed Checks: (.*)', out)
-        return {'cmd': 'CARGO_NET_OFFLINE=true ' + ' '.join(cmd), 'result': res, 'failed_checks': failed[:8],
-                'wall_s': round(time.time() - t0, 1), 'tail': out[-1200:],
-                'bound': 'one fixed board (kani/moves.rs::board_a), all 64x64 (from,to) pairs satisfying the shape precondition, standard moves only'}
+        pb = []
+        if res == 'FAILED' and failed_h:
+            # second pass, single-threaded, for CBMC's concrete counterexample of the first failing harness
+            cmd2 = ['cargo', 'kani', '--harness', failed_h[0], '--output-format', 'terse', '-Z', 'concrete-playback', '--concrete-playback=print']
+            try:
+                p2 = subprocess.run(cmd2, cwd=dst, env=env, stdout=subprocess.PIPE, stderr=subprocess.STDOUT, text=True, timeout=1800)
+                pb = re.findall(r'(#\[test\]\s*fn kani_concrete_playback_\w+\(\) \{.*?\n\})', p2.stdout, re.S)
+                failed = failed or re.findall(r'Failed Checks: (.*)', p2.stdout)
+            except Exception:
+                pass
+        return {'cmd': 'CARGO_NET_OFFLINE=true ' + ' '.join(cmd), 'result': res, 'failed_checks': failed[:8], 'failed_harnesses': failed_h,
+                'playback': pb[:4], 'wall_s': round(time.time() - t0, 1), 'tail': out[-1500:],
+                'bound': 'fixed boards of kani/moves.rs (board_a: standard moves, board_p: promotions, board_e: en passant, board_c: castling); every (from,to[,piece]) satisfying the shape precondition; public API only'}
     finally:
         shutil.rmtree(tmp, ignore_errors=True)
 
@@ -332,11 +367,11 @@ def run(pid, cfg, tier, seed):
                 'exhaustive': {'what': 'magics_ok + table content for all 64 squares x all subsets of the relevance mask (rook and bishop) on every generated magic_table.rs found',
                                'files': len(rep['magic_constants']), 'cases': sum(r['cases'] for r in rep['magic_constants'])}}
     if pid in ('C03', 'C04') and tier == 'thorough':
-        k = run_kani_moves(repo)
+        k = run_kani_moves(repo, MOVE_HARNESSES)
         viol = []
         if k['result'] == 'FAILED':
-            viol.append(_viol(pid, 'kani-bounded', 'StandardChessMove::apply+undo', 'kani-assertion', 'std_apply_undo_board_a',
-                              k['tail'], {'has_input': False, 'checker_cmd': k['cmd'], 'failed_checks': k['failed_checks']}))
+            viol.append(_viol(pid, 'kani-bounded', 'StandardChessMove::apply+undo', 'kani-assertion', ','.join(k['failed_harnesses']) or 'moves',
+                              k['tail'], {'has_input': bool(k.get('playback')), 'checker_cmd': k['cmd'], 'failed_checks': k['failed_checks'], 'concrete_playback': k.get('playback')}))
         return {'report': {'kani_bounded_twin': k}, 'backends': ['kani-cbmc (bounded stand-in)'], 'violations': viol,
                 'bounded': [k['bound']]}
     return None
